@@ -140,7 +140,7 @@ def R3_reposition_info(run):
         run.missing("R3", "direction-atom", "branch on calculate_token_delta(..).1 not found", loc=fn.loc())
         return
     for val in (True, False):
-        truth = (not val) if at0.neg else val
+        truth = val
         pv = prov_assuming(fn, [(at0, truth)])
         ret = None
         asr = None
